@@ -203,6 +203,54 @@ def evaluate(case):
                     fails.append(f"feeding a written {len(x)}-row S(Q) file back in as a dataset raises {type(ex).__name__}: {str(ex)[:80]}")
     finally:
         shutil.rmtree(d, ignore_errors=True)
+    if not fails and len(case["x"]) % 4 == 1:
+        fails += refilter_writes(len(case["x"]))
+    return fails
+
+
+def refilter_writes(n):
+    """the files of the Fourier-filter step are written by every call of the step: the same object asked to filter again under another stem name
+    (same data, same options; the earlier files moved away) produces the same set of files under the new name, and they hold the stored curves"""
+    import contextlib, io
+    fails = []
+    d = tempfile.mkdtemp(prefix="verif_c18f_")
+    cwd = os.getcwd()
+    os.chdir(d)
+    try:
+        q = np.round(np.linspace(0.4, 9.0 + (n % 7), 30 + n % 11), 2)
+        sq = 1.0 + 0.3 * np.sin(q * (2.0 + 0.01 * (n % 13))) * np.exp(-0.1 * q)
+        st = StoG(**{"RealSpaceFunction": ["g(r)", "G(r)", "GK(r)"][n % 3], "Rmin": 0.1, "Rmax": 5.0, "Rdelta": 0.1, "NumberDensity": 0.05,
+                    "<b_coh>^2": 2.0, "<b_tot^2>": 3.0, "FourierFilter": {"Cutoff": 1.2}, "Outputs": {"StemName": "first"}})
+        st.q_master[st.sq_title] = q
+        st.sq_master[st.sq_title] = sq
+        with contextlib.redirect_stdout(io.StringIO()), np.errstate(all="ignore"):
+            st.transform_merged()
+            before = set(os.listdir(d))
+            st.fourier_filter()
+            made1 = sorted(set(os.listdir(d)) - before)
+            for f in os.listdir(d):
+                os.remove(f)
+            st.stem_name = "second"
+            st.fourier_filter()
+        made2 = sorted(os.listdir(d))
+        want = sorted(f.replace("first", "second") for f in made1)
+        if made2 != want:
+            fails.append(f"fourier_filter() called again on the same object under stem 'second' (first call wrote {made1}; those files were removed): "
+                         f"files written {made2}, expected {want}")
+        else:
+            for f, (xs, ys) in (("second_ft.sq", (st.q_master.get(st.sq_ft_title), st.sq_master.get(st.sq_ft_title))),
+                                ("second_ft.gr", (st.r_master.get(st.gr_ft_title), st.gr_master.get(st.gr_ft_title)))):
+                if f in made2 and xs is not None:
+                    rows = open(f).read().split("\n")[2:-1]
+                    if len(rows) != len(xs):
+                        fails.append(f"{f}: {len(rows)} rows for a stored curve of {len(xs)} points")
+                    elif len(rows) and exceeds(np.abs(np.array([float(t.split()[1]) for t in rows]) - np.asarray(ys, dtype=float)).max(), 1e-9):
+                        fails.append(f"{f}: does not hold the stored curve")
+    except Exception as ex:  # noqa: BLE001
+        fails.append(f"fourier_filter() twice on one object raises {type(ex).__name__}: {str(ex)[:80]}")
+    finally:
+        os.chdir(cwd)
+        shutil.rmtree(d, ignore_errors=True)
     return fails
 
 
